@@ -246,7 +246,29 @@ def extra_checks(tier, seed):
                   z3.Extract(rec, 4, v) == d, 30000)] + ([__import__("pyvc.replaylib", fromlist=["x"]).native_crosscheck(
                       "C03/bounded/batches-through-the-real-codecs", _BATCH_HARNESS,
                       "batches of 0..4 out of 7 sample objects through the real msgpack / cbor2 / ubjson object serializers "
-                      "(evidence for the assumed codec law, bounded)")] if tier == "thorough" else [])
+                      "(evidence for the assumed codec law, bounded)"), _roundtrip_crosscheck(tier, seed)] if tier == "thorough" else [])
+
+
+def _roundtrip_crosscheck(tier, seed):
+    """the round-trip contracts against the real code: messages produced by the real parse() from random structures (the C08
+    generator) that satisfy a unit's preconditions are marshalled and parsed again, the unit's postconditions evaluated
+    natively.  The proofs say this cannot fail; bounded, thorough tier only"""
+    import re
+    from pyvc import replaylib as Rp
+    from pyvc.contracts import Registry
+    reg = Registry()
+    build(reg)
+    rt = {}
+    for c in reg.units:
+        mt = re.search(r"roundtrip\[(\w+)\]", c.name)
+        if not mt:
+            continue
+        try:
+            rt[mt.group(1)] = {"requires": [Rp.native_clause(r) for r in c.requires],
+                               "ensures": [Rp.native_clause(e) for e in c.ensures]}
+        except Exception:
+            pass
+    return c08._fuzz_crosscheck(tier, seed, roundtrip=rt, name="C03/bounded/roundtrip-units-vs-real-code")
 
 
 # ------------------------------------------------------------------------------------------ replay on the real code
